@@ -152,8 +152,14 @@ def same(exp, obs):
 
 
 def fanout(st):
-    """a function whose body calls itself twice (userfunc_recursion_fanout: does not end on the pinned tree)"""
-    return any(d["line"].split(",", 1)[-1].count(d["line"].split()[0] + "(") >= 2 for d in st["defs"])
+    """a function whose body calls user functions of the program twice: if such a program is recursive the evaluation
+    branches at every level and does not end on the pinned tree (userfunc_recursion_fanout)"""
+    names = {d["line"].split()[0].upper() for d in st["defs"]}
+    for d in st["defs"]:
+        body = d["line"].split(" function ", 1)[-1].upper()
+        if sum(body.count(n + "(") for n in names) >= 2:
+            return True
+    return False
 
 
 def opts(st):
